@@ -1087,3 +1087,202 @@ Proof.
   intros H. apply run_from_ok_only_after; [|exact H].
   unfold S2. cbn. repeat split; auto using incl_refl. discriminate.
 Qed.
+
+(* ====================================================================================== *)
+(* Directory NAMES: the model only compares names, so renaming them injectively changes       *)
+(* nothing; hence a history in which every directory keeps one name behaves as the history    *)
+(* of directories (Spec: canon), and the theorems above transfer to named histories.          *)
+(* ====================================================================================== *)
+Section Rename.
+  Variable f : N -> N.
+  Variable L : list N.
+  Hypothesis inj : forall x y, In x L -> In y L -> f x = f y -> x = y.
+
+  Lemma smem_map x l : In x L -> incl l L -> smem (f x) (map f l) = smem x l.
+  Proof.
+    intros Hx Hl. induction l as [|y l IH]; [reflexivity|]. cbn [map smem].
+    rewrite IH by (intros z Hz; apply Hl; now right). f_equal.
+    destruct (N.eqb x y) eqn:E.
+    - apply N.eqb_eq in E. subst. apply N.eqb_refl.
+    - apply N.eqb_neq. intros H. apply N.eqb_neq in E. apply E. apply inj; auto. apply Hl. now left.
+  Qed.
+
+  Lemma sadd_map x l : In x L -> incl l L -> sadd (f x) (map f l) = map f (sadd x l).
+  Proof.
+    intros Hx Hl. unfold sadd. rewrite smem_map by assumption. destruct (smem x l); [reflexivity|].
+    now rewrite map_app.
+  Qed.
+
+  Lemma incl_sadd_L x l : In x L -> incl l L -> incl (sadd x l) L.
+  Proof. intros Hx Hl y Hy. apply In_sadd in Hy as [->|Hy]; auto. Qed.
+
+  Lemma ssub_map a b : incl a L -> incl b L -> ssub (map f a) (map f b) = ssub a b.
+  Proof.
+    intros Ha Hb. unfold ssub. induction a as [|x a IH]; [reflexivity|]. cbn [map forallb].
+    rewrite smem_map by (auto; apply Ha; now left). rewrite IH by (intros z Hz; apply Ha; now right). reflexivity.
+  Qed.
+
+  Lemma sseteq_map a b : incl a L -> incl b L -> sseteq (map f a) (map f b) = sseteq a b.
+  Proof. intros Ha Hb. unfold sseteq. now rewrite !ssub_map. Qed.
+
+  Lemma sunion_map b : forall a, incl a L -> incl b L -> sunion (map f a) (map f b) = map f (sunion a b).
+  Proof.
+    induction b as [|x b IH]; intros a Ha Hb; [reflexivity|]. cbn [map sunion].
+    rewrite sadd_map by (auto; apply Hb; now left).
+    apply IH; [apply incl_sadd_L; auto; apply Hb; now left | intros z Hz; apply Hb; now right].
+  Qed.
+
+  Lemma incl_sunion_L a b : incl a L -> incl b L -> incl (sunion a b) L.
+  Proof. intros Ha Hb x Hx. apply In_sunion in Hx as [Hx|Hx]; auto. Qed.
+
+  Lemma snonempty_map (l : list N) : snonempty (map f l) = snonempty l.
+  Proof. destruct l; reflexivity. Qed.
+
+  Lemma nlen_map (l : list N) : nlen (map f l) = nlen l.
+  Proof. unfold nlen. now rewrite map_length. Qed.
+
+  Lemma prog_map c a b d : prog c (map f a) (map f b) (map f d) = prog c a b d.
+  Proof. unfold prog. rewrite !nlen_map. destruct a; reflexivity. Qed.
+
+  Definition mapst (m : st) : st :=
+    {| m_rep := m_rep m; m_att := map f (m_att m); m_conf := map f (m_conf m); m_fail := map f (m_fail m);
+       m_fired := m_fired m; m_listen := m_listen m; m_unsub_pending := m_unsub_pending m;
+       m_upl_done := m_upl_done m; m_created := m_created m; m_oos := m_oos m |}.
+
+  Definition SubL (m : st) : Prop := incl (m_att m) L /\ incl (m_conf m) L /\ incl (m_fail m) L.
+
+  Lemma finish_wait_map c m o :
+    finish_wait c (mapst m) o = (mapst (fst (finish_wait c m o)), snd (finish_wait c m o)).
+  Proof. reflexivity. Qed.
+
+  Lemma fire_map c m o : fire c (mapst m) o = (mapst (fst (fire c m o)), snd (fire c m o)).
+  Proof.
+    unfold fire. cbn [mapst m_rep]. destruct (c_shared c); [reflexivity|].
+    destruct (m_rep m); reflexivity.
+  Qed.
+
+  Lemma fire_sets c m o : SubL m -> SubL (fst (fire c m o)).
+  Proof.
+    intros H. unfold fire, finish_wait. destruct (c_shared c); [exact H|]. destruct (m_rep m); exact H.
+  Qed.
+
+  Lemma upd_map m a b d : mapst (upd m a b d) = upd (mapst m) (map f a) (map f b) (map f d).
+  Proof. reflexivity. Qed.
+
+  Lemma step_ev_map c m k a d :
+    In d L -> SubL m ->
+    step_ev c (mapst m) k a (f d) = (mapst (fst (step_ev c m k a d)), snd (step_ev c m k a d))
+    /\ SubL (fst (step_ev c m k a d)).
+  Proof.
+    intros Hd (Ha & Hc & Hf). unfold step_ev. cbn [mapst m_listen m_att m_conf m_fail m_fired m_rep].
+    assert (Hk : known c (mapst m) = known c m) by reflexivity.
+    destruct (negb (m_listen m)); [split; [reflexivity | repeat split; assumption]|].
+    rewrite Hk. destruct k.
+    - destruct ((a =? c_own c) && known c m); [|split; [reflexivity | repeat split; assumption]].
+      rewrite sadd_map, prog_map by assumption. split; [reflexivity|].
+      repeat split; cbn; auto using incl_sadd_L.
+    - rewrite smem_map by assumption. destruct (smem d (m_att m)); [|split; [reflexivity | repeat split; assumption]].
+      rewrite sadd_map by assumption. rewrite prog_map.
+      assert (Hc' : incl (sadd d (m_conf m)) L) by (apply incl_sadd_L; assumption).
+      assert (S1 : SubL (upd m (m_att m) (sadd d (m_conf m)) (m_fail m))) by (repeat split; assumption).
+      rewrite <- upd_map.
+      destruct (m_fired m); [split; [reflexivity | exact S1]|].
+      rewrite sunion_map, ssub_map by (auto using incl_sunion_L).
+      destruct (c_await c); [destruct (ssub (m_att m) (sunion (m_fail m) (sadd d (m_conf m))))|].
+      + rewrite fire_map. destruct (fire c (upd m (m_att m) (sadd d (m_conf m)) (m_fail m)) true) eqn:E.
+        cbn [fst snd]. split; [reflexivity|]. pose proof (fire_sets c _ true S1) as S2. now rewrite E in S2.
+      + split; [reflexivity | exact S1].
+      + rewrite fire_map. destruct (fire c (upd m (m_att m) (sadd d (m_conf m)) (m_fail m)) true) eqn:E.
+        cbn [fst snd]. split; [reflexivity|]. pose proof (fire_sets c _ true S1) as S2. now rewrite E in S2.
+    - destruct ((a =? c_own c) && known c m); [|split; [reflexivity | repeat split; assumption]].
+      rewrite sadd_map by assumption. rewrite prog_map.
+      assert (Hf' : incl (sadd d (m_fail m)) L) by (apply incl_sadd_L; assumption).
+      assert (S1 : SubL (upd m (m_att m) (m_conf m) (sadd d (m_fail m)))) by (repeat split; assumption).
+      rewrite <- upd_map.
+      rewrite sseteq_map by assumption. rewrite sunion_map by assumption.
+      rewrite sseteq_map by (auto using incl_sunion_L). rewrite snonempty_map.
+      destruct (sseteq (sadd d (m_fail m)) (m_att m)).
+      + destruct (m_fired m); [split; [reflexivity | exact S1]|].
+        rewrite fire_map. destruct (fire c (upd m (m_att m) (m_conf m) (sadd d (m_fail m))) false) eqn:E.
+        cbn [fst snd]. split; [reflexivity|]. pose proof (fire_sets c _ false S1) as S2. now rewrite E in S2.
+      + destruct (c_await c && snonempty (m_conf m) && negb match m_fired m with Some _ => true | None => false end
+                  && sseteq (sunion (sadd d (m_fail m)) (m_conf m)) (m_att m)).
+        * rewrite fire_map. destruct (fire c (upd m (m_att m) (m_conf m) (sadd d (m_fail m))) true) eqn:E.
+          cbn [fst snd]. split; [reflexivity|]. pose proof (fire_sets c _ true S1) as S2. now rewrite E in S2.
+        * split; [reflexivity | exact S1].
+  Qed.
+
+  Definition ren_op (o : op) : op := match o with Ev k a d => Ev k a (f d) | x => x end.
+
+  Lemma step_map c m o :
+    incl (names_of [o]) L -> SubL m ->
+    step c (mapst m) (ren_op o) = (mapst (fst (step c m o)), snd (step c m o)) /\ SubL (fst (step c m o)).
+  Proof.
+    intros Ho HS. destruct o as [k a d| |]; cbn [ren_op step].
+    - apply step_ev_map; [apply Ho; cbn; auto | exact HS].
+    - cbn [mapst m_rep m_fired m_upl_done m_unsub_pending].
+      destruct (m_rep m); [split; [reflexivity | exact HS]|].
+      destruct (m_fired m); [|split; [reflexivity | exact HS]].
+      destruct (m_upl_done m); [split; [reflexivity | exact HS]|].
+      destruct (m_unsub_pending m); split; try reflexivity; exact HS.
+    - cbn [mapst m_rep m_fired m_upl_done m_unsub_pending].
+      destruct (m_rep m); [split; [reflexivity | exact HS]|].
+      destruct (m_fired m); [destruct (m_unsub_pending m)|destruct (c_shared c)]; split; try reflexivity; exact HS.
+  Qed.
+
+  Lemma run_from_map c ops : forall m,
+    incl (names_of ops) L -> SubL m ->
+    run_from c (mapst m) (map ren_op ops) = run_from c m ops.
+  Proof.
+    induction ops as [|o ops IH]; intros m Ho HS; [reflexivity|].
+    cbn [map run_from].
+    assert (Ho1 : incl (names_of [o]) L).
+    { intros x Hx. apply Ho. unfold names_of in *. cbn [flat_map] in *. rewrite app_nil_r in Hx. apply in_app_iff. now left. }
+    assert (Ho2 : incl (names_of ops) L).
+    { intros x Hx. apply Ho. unfold names_of in *. cbn [flat_map]. apply in_app_iff. now right. }
+    destruct (step_map c m o Ho1 HS) as (E & HS'). rewrite E.
+    destruct (step c m o) as [m' evs]. cbn [fst snd] in *.
+    rewrite (IH m' Ho2 HS'). reflexivity.
+  Qed.
+End Rename.
+
+(* directories themselves are interchangeable: renaming them injectively changes nothing *)
+Lemma run_injective_renaming (f : N -> N) c ops :
+  (forall x y, In x (names_of ops) -> In y (names_of ops) -> f x = f y -> x = y) ->
+  run c (map (ren_op f) ops) = run c ops.
+Proof.
+  intros Inj. unfold run. f_equal.
+  apply (run_from_map f (names_of ops) Inj c ops m0 (incl_refl _)). repeat split; intros x [].
+Qed.
+
+(* NAMES: the code keys by fingerprint (fix 1b606af), so ANY renaming that keeps every name's fingerprint -
+   injective or not, e.g. switching between "$FP" and "$FP~nick" from event to event - changes nothing *)
+Lemma canon_ren g ops : (forall d, dir_id (g d) = dir_id d) -> canon (map (ren_op g) ops) = canon ops.
+Proof.
+  intros Hg. unfold canon. rewrite map_map. apply map_ext. intros [k a d| |]; cbn; [now rewrite Hg | reflexivity..].
+Qed.
+
+Lemma names_irrelevant g c ops :
+  (forall d, dir_id (g d) = dir_id d) -> run_named c (map (ren_op g) ops) = run_named c ops.
+Proof. intros Hg. unfold run_named. now rewrite canon_ren. Qed.
+
+Lemma answers_canon ops : filter is_answer (canon ops) = filter is_answer ops.
+Proof. induction ops as [|o ops IH]; [reflexivity|]. cbn [canon map filter]. destruct o; cbn; fold (canon ops); rewrite ?IH; reflexivity. Qed.
+
+(* the main statement for histories as the implementation sees them (directories named in either form) *)
+Lemma model_meets_oracle_named c ops :
+  wf ops = true ->
+  foreign_uploaded_shared_dir c (canon ops) = false ->
+  own_event_before_reply c (canon ops) = false ->
+  oracle_named c ops (run_named c ops) = true.
+Proof.
+  intros Hwf Ha Hd. unfold oracle_named, run_named. apply model_meets_oracle; auto.
+  unfold wf. now rewrite answers_canon.
+Qed.
+
+(* regression anchor for the repaired C15-F5 (fix 1b606af): UPLOAD "$FP~nick" then UPLOADED "$FP" completes *)
+Lemma two_forms_now_accepted :
+  let ops := [Reply; Ev KUpload 1 3; Ev KUploaded 1 2] in
+  oracle_named (cfg0 false) ops (run_named (cfg0 false) ops) = true
+  /\ n_dones_of (run_named (cfg0 false) ops) = 1%nat.
+Proof. vm_compute. auto. Qed.
